@@ -523,8 +523,10 @@ def control_value_sites(db, rep):
         e = Engine(db, prog, H, max_states=60000)
         e.run(gc, {cells[f_]: fs(SENT[f_]) for f_ in cells})
         rep.count_states(e.states, e.transitions)
-        if len(H.ends) != 1 or H.ends[0][0] != 1:
+        if scen != 'discovery' and (len(H.ends) != 1 or H.ends[0][0] != 1):
             raise AnalysisBroken('getcontrols: %d ends with the numeric control files %s' % (len(H.ends), scen))
+        if not H.ends:
+            raise AnalysisBroken('getcontrols: no end reached')
         st, tr = H.ends[0][1], H.ends[0][2]
         if scen == 'discovery':
             for fnm in SENT:
